@@ -134,7 +134,9 @@ def call(fn, *a, what="call", **kw):
         return fn(*a, **kw)
     except Violation:
         raise
-    except Exception as e:  # noqa
+    except BaseException as e:  # noqa  (pyo3's PanicException derives from BaseException)
+        if isinstance(e, (KeyboardInterrupt, SystemExit, GeneratorExit)):
+            raise
         if from_puan(e):
             raise Violation(f"{what} raised {type(e).__name__}: {str(e)[:300]}")
         raise
@@ -183,7 +185,9 @@ def _guarded_check(part, case, ev, out):
                 out["tolerated"].append(key)
             return
         raise
-    except Exception as e:  # noqa
+    except BaseException as e:  # noqa  (pyo3's PanicException derives from BaseException)
+        if isinstance(e, (KeyboardInterrupt, SystemExit, GeneratorExit)):
+            raise
         if from_puan(e):
             raise Violation(f"unexpected exception from puan: {type(e).__name__}: {str(e)[:300]}\n{short_tb(e)}")
         raise
